@@ -26,6 +26,9 @@ func alias3(mode int, x, y *numct.Nat) (out, xx, yy *numct.Nat) {
 		return new(numct.Nat), x, x
 	case 4:
 		return x, x, x
+	case 5: // a receiver that held another value before
+		d := new(big.Int).Abs(dirtyValue)
+		return numct.NewNatFromBig(d, d.BitLen()), x, y
 	}
 	return new(numct.Nat), x, y
 }
@@ -67,10 +70,10 @@ func genNatBin(rl func(x, y *big.Int) int, withCap bool) func(r *vh.Rng, g *genC
 		}
 		ax, ay := g.capFor(r, x), g.capFor(r, y)
 		mode := 0
-		if r.Intn(3) == 0 {
-			mode = 1 + r.Intn(4)
+		if r.Intn(2) == 0 {
+			mode = 1 + r.Intn(5)
 		}
-		if mode >= 3 {
+		if mode == 3 || mode == 4 {
 			y, ay = x, ax
 		}
 		args := []*big.Int{x, zi(ax), y, zi(ay)}
@@ -351,9 +354,9 @@ func init() {
 		case 2:
 			y = new(big.Int).Add(x, one)
 		}
-		mode := r.Intn(4)
+		mode := r.Intn(6)
 		ax, ay := g.capFor(r, x), g.capFor(r, y)
-		if mode == 3 {
+		if mode == 3 || mode == 4 {
 			y, ay = x, ax
 		}
 		return &tcase{args: []*big.Int{x, zi(ax), y, zi(ay)}, mode: mode}
@@ -374,7 +377,7 @@ func init() {
 	register(&opDef{name: "nat.coprime", weight: 6, gen: genPair,
 		impl: func(c *tcase) (string, string) {
 			x, y := mkNat(c.args[0], ai(c, 1)), mkNat(c.args[2], ai(c, 3))
-			if c.mode == 3 {
+			if c.mode == 3 || c.mode == 4 {
 				y = x
 			}
 			w := &watch{}
@@ -389,7 +392,7 @@ func init() {
 	register(&opDef{name: "nat.cmp", weight: 6, gen: genPair,
 		impl: func(c *tcase) (string, string) {
 			x, y := mkNat(c.args[0], ai(c, 1)), mkNat(c.args[2], ai(c, 3))
-			if c.mode == 3 {
+			if c.mode == 3 || c.mode == 4 {
 				y = x
 			}
 			w := &watch{}
